@@ -621,7 +621,18 @@ def finish(prop, tier, seed, pc, rows, results, vio_lines, undecided, t_start, c
     for ov in sel:
         for a in ov.attaches:
             if any("kani::requires" in x or "kani::ensures" in x for x in a.lines):
-                fns.add(f"{a.file}::{a.anchor[-1].rstrip('(').split()[-1]}")
+                m = re.search(r"\bfn\s+(\w+)", a.anchor[-1])
+                ctx = ""
+                if len(a.anchor) > 1:
+                    mc = re.search(r"\b(?:impl|trait|mod)\b(?:<[^>]*>)?\s+(?:.*\bfor\s+)?(\w+)", a.anchor[-2])
+                    ctx = (mc.group(1) + "::") if mc else ""
+                fns.add(f"{a.file}::{ctx}{m.group(1) if m else a.anchor[-1].strip()}")
+    ran = {r["harness"] for r in rows}
+    hfns = set()
+    for ov in sel:
+        for h in ov.harnesses:
+            if h.name in ran:
+                hfns.update(x for x in h.fns if x)
     nontrivial = sum(1 for r in deciding if r.get("outcome") == "discharged" and r.get("checks_success", 0) > 0 and (r.get("vccs") or 0) > 0)
     samples = []
     for r in rows[:400]:
@@ -647,6 +658,7 @@ def finish(prop, tier, seed, pc, rows, results, vio_lines, undecided, t_start, c
             "harnesses_bounded_standin": len(bounded),
             "bounds": sorted({r["bound"] for r in bounded if r.get("bound")}),
             "functions_under_contract": sorted(fns),
+            "functions_under_harness_level_contract": sorted(hfns - fns),
             "backend": "Kani 0.68.0 -> CBMC 6.11.0 -> CaDiCaL",
             "solver_s_total": round(sum((r.get("solver_s") or 0) for r in rows), 3),
             "undecided": undecided,
